@@ -11,7 +11,8 @@ INFO = {
             "Sequence, FocusedSeq, Union, LazyStruct}, repeaters {Array, GreedyRange, RepeatUntil, Array/GreedyRange with discard=True} and transparent wrappers {Prefixed, "
             "FixedSized, Padded, IfThenElse, Switch, Renamed}, with at the innermost position every reference path available there "
             "(earlier sibling, one '_' per enclosing scope to that scope's sibling, _root.x, _params.k, _index and _._index, the three "
-            "mode flags) in every role (value: Computed; length: Bytes(p&1); count: Array(p&1, Byte); branch: If(p, Byte)), run through "
+            "mode flags) in every role (value: Computed; length: Bytes(p&1); count: Array(p&1, Byte); branch: If(p, Byte); selector: Union(p&1, ..) and FocusedSeq(computed name, ..) with the extra '_' their own scope needs, "
+            "also with own members shadowing an outer name), run through "
             "parse (5 inputs x 2 keyword contexts), build (the parsed values) and sizeof. Oracle: the reference scope model of mc/ref.py "
             "(a stack of frames: S pushes, '_' pops one, _root is the outermost pushed frame, _params the keyword frame at every depth, "
             "_index the innermost repeater's index as seen from the frame, exactly one flag true); bytes built for a value must parse "
@@ -150,6 +151,17 @@ def probe_struct(path, kind, role):
         m = ["Array", ["bin", "&", P, ["k", 1]], BYTE]
     elif role == "branch":
         m = ["If", P, BYTE]
+    elif role in ("sel-union", "sel-focus", "sel-union-own", "sel-focus-own"):
+        # the selector parameter of a scope-opening composite is an expression in the scope that composite opens (like its members'
+        # expressions): one '_' more than the members of the probe struct need, and the composite's own members shadow outer names
+        I16 = G.I(2, False, "b")
+        own = role.endswith("-own")
+        Q = ["bin", "&", (["this", "y"] if own else ["path", ["_"] + path]), ["k", 1]]
+        a, b = ("y", "yy") if own else ("f", "ff")
+        if role.startswith("sel-union"):
+            m = ["Union", Q, [[a, BYTE], [b, I16]]]
+        else:
+            m = ["FocusedSeq", ["bin", "+", ["k", a], ["bin", "*", ["k", a], Q]], [[a, ["Default", BYTE, 7]], [b, ["Default", I16, 9]]]]
     else:
         raise ValueError(role)
     if path[0] == "hdr":
@@ -159,7 +171,7 @@ def probe_struct(path, kind, role):
 
 def roles_for(kind):
     if kind == "int":
-        return ["value", "length", "count", "branch"]
+        return ["value", "length", "count", "branch", "sel-union", "sel-focus"]
     if kind == "index":
         return ["value", "length", "branch"]
     if kind == "flag":
@@ -175,6 +187,11 @@ def shapes_for(chain):
             for lvl in range(len(chain) - 1, -1, -1):
                 t = wrap(chain[lvl], t, lvl)
             out.append((t, path, role))
+            if path == ["y"] and role in ("sel-union", "sel-focus"):
+                t = probe_struct(path, kind, role + "-own")
+                for lvl in range(len(chain) - 1, -1, -1):
+                    t = wrap(chain[lvl], t, lvl)
+                out.append((t, path, role + "-own"))
     return out
 
 
